@@ -7,7 +7,8 @@
    record still in the buffer is canonically spelled.  `erase` blanks written bytes: values are compared on every
    file, written bytes on canonically spelled files (C04 owns pass-through of other spellings). *)
 From Coq Require Import ZArith List Bool.
-From BNP Require Import Base.Prims Model.C05 Proofs.C05.
+From BNP Require Import Base.Prims Model.C05 Proofs.C05 Gen.C05 Bridge.C05.
+Open Scope nat_scope.
 Import ListNotations.
 
 (* T3 for the code as it is (np.concatenate takes the store keys of its first operand): for EVERY format
@@ -137,6 +138,58 @@ Theorem C05_noncanonical_write_differs :
     m_run l_concat_pinned F hdr (start recs) prog <> s_run F hdr [rows_of_file F recs; rows_of_file F recs] prog.
 Proof. exact noncanonical_write_differs. Qed.
 Print Assumptions C05_noncanonical_write_differs.
+
+(* ---- tie to the source: the decision rules regenerated from /repo by translate/gen_c05.py on this run (Gen/C05.v:
+   the lookup order of __getattr__ and of concatenate's column(), what __getitem__ indexes and which row the scalar
+   path takes, what __replace__ keeps, the any/all key rules of np.concatenate and its lazy/fallback branch, the
+   path selection of get_buffer and the per-field column source, the laziness condition of the reader) are the rules
+   named in Model/C05.v; Bridge/C05.v also proves that the model's functions (l_get, l_col, l_index, l_replace,
+   l_concat, t_concat, l_write, text_col, the scalar path and tolist of m_step) follow these rules (the lemmas named s_xxx). ---- *)
+Theorem C05_source_tie :
+  (forall a b c d e f : bool,
+      gen_getattr_source a b c = m_getattr_source a b c
+      /\ gen_concat_column_source a b = m_concat_column_source a b
+      /\ gen_concat_stays_lazy a = m_concat_stays_lazy a
+      /\ gen_concat_set_key a = m_concat_set_key a
+      /\ gen_concat_cache_key a b = m_concat_cache_key a b
+      /\ gen_get_buffer_path a b c d e f = m_get_buffer_path a b c d e f
+      /\ gen_write_column_source a = m_write_column_source a
+      /\ gen_should_be_lazy a b c d e f = m_should_be_lazy a b c d e f)
+  /\ gen_get_field_parses_buffer = m_get_field_parses_buffer
+  /\ (gen_getitem_indexes_buffer = m_getitem_indexes_buffer /\ gen_getitem_indexes_overlay = m_getitem_indexes_overlay
+      /\ gen_getitem_indexes_cache = m_getitem_indexes_cache /\ gen_getitem_scalar_row = m_getitem_scalar_row)
+  /\ gen_itemgetter_getitem_resets_start_line = m_itemgetter_getitem_resets_start_line
+  /\ (gen_replace_into_overlay = m_replace_into_overlay /\ gen_replace_new_overrides_old = m_replace_new_overrides_old
+      /\ gen_replace_keeps_cache = m_replace_keeps_cache)
+  /\ gen_data_object_reads_all_fields_in_order = m_data_object_reads_all_fields_in_order
+  /\ gen_concat_requires_all_lazy = m_concat_requires_all_lazy
+  /\ gen_write_columns_in_field_order = m_write_columns_in_field_order
+  (* and the model follows the rules: field access, indexing, concatenate keys *)
+  /\ (forall F f l,
+        l_get F f l =
+        match m_getattr_source (has f (l_set l)) true (has f (l_comp l)) with
+        | 0%Z => Some (col_of f (l_set l), l)
+        | 2%Z => Some (col_of f (l_comp l), l)
+        | _ => if sid_fail F l f then None
+               else Some (parse_col F f (l_buf l),
+                          {| l_buf := l_buf l; l_set := l_set l; l_comp := l_comp l ++ [(f, parse_col F f (l_buf l))] |})
+        end)
+  /\ (forall F first rest l', l_concat F (first :: rest) = Some l' ->
+        keys (l_set l') = filter (fun f => m_concat_set_key (existsb (fun l => has f (l_set l)) (first :: rest))) (all_fields F)
+        /\ keys (l_comp l') = filter (fun f => m_concat_cache_key (existsb (fun l => has f (l_set l)) (first :: rest))
+                                                                    (forallb (fun l => has f (l_comp l)) (first :: rest)))
+                                      (keys (l_comp first))).
+Proof.
+  split.
+  { intros a b c d e f.
+    exact (conj (b_getattr_source a b c) (conj (b_concat_column_source a b) (conj (b_concat_path a) (conj (b_concat_set_key a)
+          (conj (b_concat_cache_key a b) (conj (b_get_buffer_path a b c d e f) (conj (b_write_column a) (b_should_be_lazy a b c d e f)))))))). }
+  split; [exact b_get_field_parses_buffer|]. split; [exact b_getitem|]. split; [exact b_itemgetter_getitem|].
+  split; [exact b_replace|]. split; [exact b_data_object|]. split; [exact b_concat_requires_all_lazy|].
+  split; [exact b_write_order|]. split; [exact s_l_get|].
+  intros F first rest l' H. destruct (s_l_concat F first rest l' H) as [H1 [H2 _]]. split; assumption.
+Qed.
+Print Assumptions C05_source_tie.
 
 (* non-vacuity: a ten-step program over both registers (field access, reversal, repeated integer indices,
    concatenate, replace, mask, t[-1], tolist, write) meets the guard on a canonical two-record file with a header
